@@ -45,7 +45,14 @@ func (f *Frame) exec(ins ssa.Instruction) {
 	case *ssa.Range:
 		switch v := f.get(x.X).(type) {
 		case *MapV:
-			f.env[x] = &RangeIter{M: v}
+			it := &RangeIter{M: v}
+			if m.cfg["maporder"] == 1 {
+				it.rev = true
+				for _, a := range v.Alts {
+					it.snap = append(it.snap, len(a.Obj.val.(*MapContent).Entries))
+				}
+			}
+			f.env[x] = it
 		default:
 			panic(notEncoded("range over %T", v))
 		}
@@ -878,6 +885,9 @@ func (f *Frame) next(x *ssa.Next) Value {
 		c := a.Obj.val.(*MapContent)
 		if it.idx < len(c.Entries) {
 			e := c.Entries[it.idx]
+			if it.rev && it.alt < len(it.snap) && it.idx < it.snap[it.alt] {
+				e = c.Entries[it.snap[it.alt]-1-it.idx]
+			}
 			it.idx++
 			p := And(a.G, e.P)
 			if p.IsFalse() || And(f.g, p).IsFalse() {
